@@ -7,6 +7,7 @@ from spverif.core.util import attempt, exc_sig, rand_bytes, rand_uint, documente
 from spverif.ref import pus as P
 from spverif.ref import ccsds as H
 
+SCRIBBLE = True
 ID = "C15"
 LEVEL = "exploration"
 SHARDS = {"quick": 1, "thorough": 16}
@@ -275,6 +276,8 @@ def selftest(ctx):
 
 
 def run(ctx):
+    from spverif.san import scribble
+    scribble.install()
     r = ctx.rng
     for half in (0, 1):
         for w in range(65536):
@@ -323,6 +326,7 @@ def run(ctx):
 
 
 def conclude(ctx):
+    ctx.require(ctx.extra.get("hostile_caller_scribbled_pack_results", 0) > 0, "hostile-caller sanitizer scribbled no pack() result")
     ctx.require(len(ctx.tables.get("param_match_grid", {})) == 32, "parameter match grid incomplete")
     ctx.require(len(ctx.tables.get("report_grid", {})) >= 100, "report grid too small")
     ctx.require(len(ctx.tables.get("report_field_style", {})) == 3, "not every packet-field construction style was used in reports")
